@@ -16,7 +16,7 @@ LEVEL = "exploration"
 EXHAUSTIVE = {"quick": True, "thorough": True}
 RULE = (
     "operation sequences over up to 3 sections of one output: create, write_line(s, t), overwrite(s, t), clear(s), "
-    "clear(s, 1|2) (n never larger than the section's line count) with t in {short, width-1, width, width+1, 2.5*width, two "
+    "clear(s, 1|2) (n up to one more than the section's line count; not on an empty section) with t in {short, width-1, width, width+1, 2.5*width, two "
     "lines, empty}; every applicable sequence up to depth D is run from scratch on a forced-ANSI output at terminal widths "
     "10 and 80 (COLUMNS), the whole stream replayed on the emulator after the last operation and compared with the stacked "
     "model; the same sequences on an output without ANSI support must produce exactly the appended lines and no control "
@@ -30,7 +30,8 @@ BOUND = {
 }
 ASSUMPTIONS = [
     "the terminal does not scroll (unbounded height) and uses deferred auto-wrap; trailing blanks of a row are ignored",
-    "clear(n) removes the last n logical lines of the section",
+    "clear(n) removes the last n logical lines of the section (all of them when it holds fewer)",
+    "undecorated = plain formatter (on a stream with or without ANSI support) or an unforced ANSI formatter on a stream without ANSI support",
 ]
 
 
@@ -61,6 +62,12 @@ class Lab(object):
 
         self.Output, self.AnsiFormatter, self.PlainFormatter, self.Stream = Output, AnsiFormatter, PlainFormatter, BufferedOutputStream
 
+        class AnsiStream(BufferedOutputStream):
+            def supports_ansi(self):
+                return True
+
+        self.AnsiStream = AnsiStream
+
 
 def applicable_ops(model, w, nsec_max=3):
     ops = []
@@ -74,7 +81,8 @@ def applicable_ops(model, w, nsec_max=3):
             ops.append(("ow", s, t))
         ops.append(("clr", s))
         for n in (1, 2):
-            if n <= len(model[s]):
+            # n may exceed the number of lines the section holds (then everything goes), but not an empty section
+            if len(model[s]) >= 1 and n <= len(model[s]) + 1:
                 ops.append(("clrn", s, n))
     return ops
 
@@ -98,14 +106,27 @@ def apply_model(model, op, texts, plain_log=None, indents=None):
     elif k == "clr":
         model[s] = []
     elif k == "clrn":
-        model[s] = model[s][: len(model[s]) - op[2]]
+        model[s] = model[s][: max(0, len(model[s]) - op[2])]
 
 
-def execute(lab, ops, w, texts, ansi=True, indents_at_creation=None):
-    """Runs the ops on the real code; returns (stream text, model, plain_log, indents)."""
+def execute(lab, ops, w, texts, ansi=True, indents_at_creation=None, plain_kind=0):
+    """Runs the ops on the real code; returns (stream text, model, plain_log, indents).
+    plain_kind selects the undecorated configuration: 0 = plain formatter on a stream without ANSI support,
+    1 = plain formatter on a stream that claims ANSI support (decoration switched off by the formatter),
+    2 = unforced ANSI formatter on a stream without ANSI support."""
     os.environ["COLUMNS"] = str(w)
-    stream = lab.Stream()
-    out = lab.Output(stream, lab.AnsiFormatter(forced=True) if ansi else lab.PlainFormatter())
+    if ansi:
+        stream = lab.Stream()
+        out = lab.Output(stream, lab.AnsiFormatter(forced=True))
+    elif plain_kind == 1:
+        stream = lab.AnsiStream()
+        out = lab.Output(stream, lab.PlainFormatter())
+    elif plain_kind == 2:
+        stream = lab.Stream()
+        out = lab.Output(stream, lab.AnsiFormatter())
+    else:
+        stream = lab.Stream()
+        out = lab.Output(stream, lab.PlainFormatter())
     secs = []
     model = []
     plain_log = []
@@ -161,9 +182,10 @@ def judge(sh, lab, ops, w, texts, record, indents_at_creation=None, tagged=False
     sh.count("bytes_replayed", len(data))
     if got != want:
         sh.violate("screen", record, "width %d: screen %r, stacked section contents %r" % (w, got, want), classify(ops, model_history(ops, texts), w))
-    # plain degradation
+    # plain degradation (three undecorated configurations, one per case)
+    plain_kind = hash(tuple(ops)) % 3
     try:
-        pdata, _, plog, _ = execute(lab, ops, w, texts, False, indents_at_creation)
+        pdata, _, plog, _ = execute(lab, ops, w, texts, False, indents_at_creation, plain_kind)
     except Exception as e:
         sh.violate("operation-raises", record, "plain output: raised %r" % (e,))
         return
@@ -183,7 +205,7 @@ def judge(sh, lab, ops, w, texts, record, indents_at_creation=None, tagged=False
             exp += (strip_tags(text) if tagged else text) + "\n"
     sh.count("plain_streams_compared")
     if pdata != exp or "\x1b" in pdata:
-        sh.violate("plain-degradation", record, "plain output wrote %r, expected the appended lines %r" % (pdata[:120], exp[:120]))
+        sh.violate("plain-degradation", record, "undecorated output (configuration %d) wrote %r, expected the appended lines %r" % (plain_kind, pdata[:120], exp[:120]))
 
 
 def model_history(ops, texts):
